@@ -16,10 +16,11 @@ package builder
 // the installed container is untouched; success iff the text is non-blank and lexes, parses and walks cleanly
 //@ func (*RuleBuilder).BuildRuleFromString
 //@   props C08 C10 C04
+//@   alsoprops C16
 //@   requires builder != nil && !held(builder.buildLock)
 //@   ensures [C10] agreement: (result == nil) <==> (!blank(ruleString) && !LexErrs(ruleString) && !SynErrs(ruleString) && !SemErrs(ruleString))
 //@   ensures [C10] allornothing: result != nil ==> builder.Kc == old(builder.Kc)
-//@   ensures [C08,C04] installed: result == nil ==> fresh(builder.Kc) && wfKc(builder.Kc) && len(builder.Kc.RuleEntities) > 0
+//@   ensures [C08,C04,C16] installed: result == nil ==> fresh(builder.Kc) && wfKc(builder.Kc) && len(builder.Kc.RuleEntities) > 0
 //@   modifies builder.Kc
 //@   use collectsortindex(0, 1, kc.SortRules, kc.RuleEntities, kc.SortRulesIndexMap)
 //@   loop 0 invariant shape: kc != nil && fresh(kc) && wfParsed(kc) && kc.SortRulesIndexMap != nil && fresh(kc.SortRulesIndexMap) && emptymap(kc.SortRulesIndexMap) && builder.Kc == old(builder.Kc) && held(builder.buildLock)
@@ -29,6 +30,7 @@ package builder
 // container holds old (+) parsed, well formed (sorted, unique names, index map and list agree)
 //@ func (*RuleBuilder).BuildRuleWithIncremental
 //@   props C08 C10 C04
+//@   alsoprops C16
 //@   arith int unchecked
 //@   requires builder != nil && !held(builder.buildLock) && wfKc(builder.Kc)
 //@   ghost OLD = builder.Kc
@@ -41,7 +43,7 @@ package builder
 //@     after A0 := arr(arg0)
 //@   ensures [C10] agreement: (result == nil) <==> (!blank(ruleString) && !LexErrs(ruleString) && !SynErrs(ruleString) && !SemErrs(ruleString))
 //@   ensures [C10] allornothing: result != nil ==> builder.Kc == OLD && builder.Kc.RuleEntities == RE0 && builder.Kc.SortRulesIndexMap == IM0 && arr(builder.Kc.SortRules) == SA0 && len(builder.Kc.SortRules) == SL0
-//@   ensures [C08,C04] merged: result == nil ==> builder.Kc == OLD && wfKc(builder.Kc)
+//@   ensures [C08,C04,C16] merged: result == nil ==> builder.Kc == OLD && wfKc(builder.Kc)
 //@   ensures [C08] view: result == nil ==> (forall k: string :: (k in builder.Kc.RuleEntities) <==> ((k in RE0) || (k in kc.RuleEntities))) && (forall k: string :: (k in kc.RuleEntities) ==> builder.Kc.RuleEntities[k] == kc.RuleEntities[k]) && (forall k: string :: (k in RE0) && !(k in kc.RuleEntities) ==> builder.Kc.RuleEntities[k] == RE0[k])
 //@   modifies builder.Kc.RuleEntities, builder.Kc.SortRules, builder.Kc.SortRulesIndexMap
 //@   loop 0 invariant a1: newRuleEntities != nil && fresh(newRuleEntities) && builder.Kc == OLD && held(builder.buildLock) && wfParsed(kc) && fresh(kc) && len(kc.RuleEntities) > 0 && true
@@ -80,10 +82,11 @@ package builder
 // removal (C08): the new container holds exactly the old entities whose names are not listed (same pointers), well formed
 //@ func (*RuleBuilder).RemoveRules
 //@   props C08 C04
+//@   alsoprops C16
 //@   requires builder != nil && !held(builder.buildLock) && wfKc(builder.Kc)
 //@   ghost RE0 = builder.Kc.RuleEntities
 //@   ensures [C08] emptylist: len(ruleNames) == 0 ==> result != nil && builder.Kc == old(builder.Kc)
-//@   ensures [C08,C04] installed: len(ruleNames) > 0 ==> result == nil && fresh(builder.Kc) && wfKc(builder.Kc)
+//@   ensures [C08,C04,C16] installed: len(ruleNames) > 0 ==> result == nil && fresh(builder.Kc) && wfKc(builder.Kc)
 //@   ensures [C08] kept: len(ruleNames) > 0 ==> forall k: string :: (k in builder.Kc.RuleEntities) ==> (k in RE0) && builder.Kc.RuleEntities[k] == RE0[k] && (forall qi :: lo(ruleNames) <= qi && qi < hi(ruleNames) ==> at(ruleNames, qi) != k)
 //@   ensures [C08] removedonlynamed: len(ruleNames) > 0 ==> forall k: string :: (k in RE0) && !(k in builder.Kc.RuleEntities) ==> exists qi :: lo(ruleNames) <= qi && qi < hi(ruleNames) && at(ruleNames, qi) == k
 //@   modifies builder.Kc
